@@ -70,10 +70,10 @@ let case (line : string) : string =
        let (((r, d), _), lg) = uv_signal_event syss [] in
        Printf.sprintf "rc=%s dispatched=%b pts=%s" (res_name r) d (pts lg)
      | ["io_poll"; m; t] ->
-       (* answers: i<e> | t | e<e> *)
+       (* answers: i<e> | t | e<e> | f<e> *)
        let pa tok =
          let v () = z_of_string (String.sub tok 1 (String.length tok - 1)) in
-         match tok.[0] with 'i' -> PIntr (v ()) | 'e' -> PEvents (v ()) | _ -> PTimeout in
+         match tok.[0] with 'i' -> PIntr (v ()) | 'e' -> PEvents (v ()) | 'f' -> PFull (v ()) | _ -> PTimeout in
        let o = if sy = "-" || sy = "" then [] else List.map pa (split_on ',' sy) in
        let r = io_poll (b m) (z_of_string t) o in
        Printf.sprintf "P%s calls=%s Q%s end=%s ok=%b" t
